@@ -14,7 +14,20 @@ use std::process::Command;
 
 fn child_path() -> std::path::PathBuf { std::env::current_exe().unwrap().parent().unwrap().join("shutdown_child") }
 
+/// One child = one schedule.  A child that reports a *timing* failure of the harness itself (a 10 s wait that expired, a
+/// refused connect) is run again, up to three times: such failures can only be machinery, never a verdict.
 fn run_child(args: &[String]) -> Result<Value, String> {
+    let mut last = String::new();
+    for _ in 0..3 {
+        match run_child_once(args) {
+            Err(e) if e.contains("timeout waiting") || e.contains("connect failed") || e.contains("did not come up") => { last = e; continue }
+            other => return other,
+        }
+    }
+    Err(last)
+}
+
+fn run_child_once(args: &[String]) -> Result<Value, String> {
     let out = Command::new(child_path()).args(args).output().map_err(|e| format!("cannot run shutdown_child: {e}"))?;
     let text = String::from_utf8_lossy(&out.stdout);
     let v: Value = serde_json::from_str(text.trim()).map_err(|_| format!("child printed no JSON (status {:?}): {}", out.status, &text[..text.len().min(200)]))?;
@@ -94,6 +107,124 @@ impl<'a> Fine<'a> {
     }
 }
 
+/* =====================================================================================================
+   The protocol as a model (explicit-state), bound to the code by replaying EVERY maximal model path on the child.
+
+   State: the two statics (CATCH, WAKER slot), P's and H's program counters, whether a wake is pending for P, whether a
+   connection is waiting in the accept queue.  Transitions are exactly the atomic steps between the hook points.  The
+   model mirrors the controller's enabledness rule and canonical choice order, so a model path *is* a child schedule;
+   the child reports the enabled set at every decision, which must equal the model's (conformance), and the final
+   outcome (returned or not) must be the model's.  The model is checked exhaustively for the invariant
+   "terminal state  =>  (returned <=> signal raised)" - on the repaired code it holds in every terminal state.
+   ===================================================================================================== */
+
+#[derive(Clone, Debug, PartialEq, Eq, Hash)]
+struct MState {
+    catch: bool, waker: bool,
+    /// P: 0 idle (between polls), 1 at P0, 2 at P2 (flag read as false), 3 at P3 (waker published), 9 returned
+    p: u8,
+    /// H: 0 not started, 1..=4 at H0..H3, 9 done;  took = the swap took a waker
+    h: u8, took: bool,
+    pwake: bool, p_first: bool, sig: bool,
+    conn_pending: bool, conns: u8,
+    last: u8, // 0 P, 1 H  (the actor that ran last; SIG counts as H, CONN keeps it)
+}
+
+impl MState {
+    fn init() -> Self { MState { catch: false, waker: false, p: 0, h: 0, took: false, pwake: true, p_first: false, sig: false, conn_pending: false, conns: 0, last: 0 } }
+    fn enabled(&self, max_conn: u8) -> Vec<&'static str> {
+        let mut v = vec![];
+        if self.p != 9 && (matches!(self.p, 1 | 2 | 3) || (self.p == 0 && self.pwake)) { v.push("P") }
+        if matches!(self.h, 1..=4) { v.push("H") }
+        if !self.sig && self.p_first { v.push("SIG") }
+        if self.conns < max_conn && self.p_first && self.p != 9 { v.push("CONN") }
+        let last = if self.last == 0 { "P" } else { "H" };
+        if v.contains(&last) { v.retain(|a| *a != last); v.insert(0, last); }
+        v
+    }
+    fn step(&self, actor: &str) -> MState {
+        let mut n = self.clone();
+        match actor {
+            "P" => { n.last = 0; match self.p {
+                0 => { n.pwake = false; n.p = 1; n.p_first = true }                                  // a poll starts and reaches P0
+                1 => { if self.conn_pending { n.conn_pending = false; n.p = 1 }                          // accept is ready: session spawned, next until_interrupt poll -> P0 again
+                       else if self.catch { n.p = 9 } else { n.p = 2 } }                                 // accept pending: read the flag
+                2 => { n.waker = true; n.p = 3 }                                                          // publish the waker
+                3 => { if self.catch { n.p = 9 } else { n.p = 0 } }                                      // the re-check after publishing (the fix), else Pending
+                _ => unreachable!() } }
+            "H" => { n.last = 1; match self.h {
+                1 => { n.catch = true; n.h = 2 }                                                          // store
+                2 => { n.took = self.waker; n.waker = false; n.h = 3 }                                    // swap
+                3 => { if self.took { n.pwake = true } n.h = 4 }                                          // wake
+                4 => { n.h = 9 }
+                _ => unreachable!() } }
+            "SIG" => { n.sig = true; n.h = 1; n.last = 1 }
+            "CONN" => { n.conns += 1; n.conn_pending = true; n.pwake = true }
+            _ => unreachable!(),
+        }
+        n
+    }
+}
+
+/// every maximal path of the model as (choice indices, enabled sets per decision, terminal state)
+fn model_paths(max_conn: u8) -> (Vec<(Vec<usize>, Vec<Vec<&'static str>>, MState)>, usize, usize) {
+    let mut out = vec![];
+    let mut states = std::collections::HashSet::new();
+    let mut transitions = 0usize;
+    fn rec(s: &MState, max_conn: u8, choices: &mut Vec<usize>, enabled_log: &mut Vec<Vec<&'static str>>, out: &mut Vec<(Vec<usize>, Vec<Vec<&'static str>>, MState)>, states: &mut std::collections::HashSet<MState>, transitions: &mut usize) {
+        states.insert(s.clone());
+        let en = s.enabled(max_conn);
+        if en.is_empty() { out.push((choices.clone(), enabled_log.clone(), s.clone())); return }
+        for (i, a) in en.iter().enumerate() {
+            *transitions += 1;
+            choices.push(i); enabled_log.push(en.clone());
+            rec(&s.step(a), max_conn, choices, enabled_log, out, states, transitions);
+            choices.pop(); enabled_log.pop();
+        }
+    }
+    rec(&MState::init(), max_conn, &mut vec![], &mut vec![], &mut out, &mut states, &mut transitions);
+    (out, states.len(), transitions)
+}
+
+fn model_conformance(ctx: &mut Ctx, max_conn: u8) {
+    let (paths, nstates, ntrans) = model_paths(max_conn);
+    ctx.extra.insert(format!("max_model_states_conn{max_conn}"), json!(nstates));
+    ctx.extra.insert(format!("max_model_transitions_conn{max_conn}"), json!(ntrans));
+    ctx.extra.insert(format!("max_model_paths_conn{max_conn}"), json!(paths.len()));
+    // (1) the invariant on every terminal state of the model
+    for (choices, _, t) in &paths {
+        if (t.p == 9) != t.sig { ctx.machinery_error(format!("the protocol MODEL violates the invariant on path {choices:?}: terminal {t:?} - the model does not describe the repaired code")); return }
+    }
+    // (2) every model path replayed on the implementation
+    for (choices, enabled_log, t) in &paths {
+        if !ctx.mine() { continue }
+        if ctx.out_of_time() { return }
+        match run_child(&["fine".into(), prefix_arg(choices), max_conn.to_string()]) {
+            Err(e) => ctx.machinery_error(format!("model path {choices:?}: {e}")),
+            Ok(v) => {
+                ctx.states += 1; ctx.transitions += choices.len() as u64;
+                let trace = v["trace"].as_array().cloned().unwrap_or_default();
+                let got_enabled: Vec<Vec<String>> = trace.iter().map(|d| d["enabled"].as_array().map(|a| a.iter().map(|x| x.as_str().unwrap_or("").to_string()).collect()).unwrap_or_default()).collect();
+                let want_enabled: Vec<Vec<String>> = enabled_log.iter().map(|e| e.iter().map(|x| x.to_string()).collect()).collect();
+                let returned = v["returned"].as_bool().unwrap_or(false);
+                if got_enabled != want_enabled || v["decisions"].as_u64() != Some(choices.len() as u64) {
+                    // the implementation offers other choices than the model along this path: either the code does not follow
+                    // the protocol the model describes (a property-relevant change) or the model is wrong
+                    let k = (0..got_enabled.len().max(want_enabled.len())).find(|&k| got_enabled.get(k) != want_enabled.get(k)).unwrap_or(0);
+                    ctx.violation(&format!("C18/model-conformance/conns{max_conn}/enabled-sets-differ"), true, || json!({"mode": "model", "max_conn": max_conn, "schedule": choices,
+                        "first_difference_at_decision": k, "model_enabled": want_enabled.get(k), "implementation_enabled": got_enabled.get(k), "events": v["events"]}));
+                } else if returned != (t.p == 9) {
+                    ctx.violation(&format!("C18/model-conformance/conns{max_conn}/{}", if returned { "returned-but-model-does-not" } else { "never-returns-but-model-does" }), true,
+                        || json!({"mode": "model", "max_conn": max_conn, "schedule": choices, "events": v["events"], "model_terminal": format!("{t:?}")}));
+                } else {
+                    ctx.traces_validated += 1;
+                    ctx.pass(&format!("model-path:conns{max_conn}:{}", if returned { "returned" } else { "serving" }), t.sig, t.sig);
+                }
+            }
+        }
+    }
+}
+
 fn coarse_case(ctx: &mut Ctx, mix: &str, events: &[String]) {
     ctx.transitions += events.len() as u64;
     ctx.states += 1;
@@ -123,6 +254,9 @@ pub fn run(ctx: &mut Ctx) {
         // every worker runs the root schedule (cheap) and shares out the first-level alternatives
         f.explore(vec![], 0);
     }
+    // (a') the protocol model, all of its maximal paths replayed on the child (quick: no connection; thorough: also one connection)
+    model_conformance(ctx, 0);
+    if !quick { model_conformance(ctx, 1); }
     // (b) coarse-grained
     let mixes: Vec<&str> = if quick { vec!["", "g", "i", "gg", "gi"] } else { vec!["", "g", "i", "gg", "gi", "ii", "ggg", "ggi", "gii", "iii"] };
     for mix in mixes {
@@ -147,6 +281,24 @@ pub fn replay(ctx: &mut Ctx, case: &Value) {
         Some("coarse") => {
             let events: Vec<String> = case["events"].as_array().map(|a| a.iter().map(|e| e.as_str().unwrap_or("").to_string()).collect()).unwrap_or_default();
             coarse_case(ctx, case["mix"].as_str().unwrap_or(""), &events);
+        }
+        Some("model") => {
+            // replay of a model path: run the conformance comparison for exactly that path
+            let want: Vec<usize> = case["schedule"].as_array().map(|a| a.iter().map(|c| c.as_u64().unwrap_or(0) as usize).collect()).unwrap_or_default();
+            let max_conn = case["max_conn"].as_u64().unwrap_or(0) as u8;
+            let (paths, _, _) = model_paths(max_conn);
+            let Some((choices, enabled_log, t)) = paths.into_iter().find(|(c, _, _)| *c == want) else { ctx.machinery_error("not a model path".into()); return };
+            match run_child(&["fine".into(), prefix_arg(&choices), max_conn.to_string()]) {
+                Err(e) => ctx.machinery_error(e),
+                Ok(v) => {
+                    let got: Vec<Vec<String>> = v["trace"].as_array().cloned().unwrap_or_default().iter().map(|d| d["enabled"].as_array().map(|a| a.iter().map(|x| x.as_str().unwrap_or("").to_string()).collect()).unwrap_or_default()).collect();
+                    let wantl: Vec<Vec<String>> = enabled_log.iter().map(|e| e.iter().map(|x| x.to_string()).collect()).collect();
+                    let returned = v["returned"].as_bool().unwrap_or(false);
+                    if got != wantl { ctx.violation(&format!("C18/model-conformance/conns{max_conn}/enabled-sets-differ"), true, || json!({"mode": "model", "schedule": choices})) }
+                    else if returned != (t.p == 9) { ctx.violation(&format!("C18/model-conformance/conns{max_conn}/{}", if returned { "returned-but-model-does-not" } else { "never-returns-but-model-does" }), true, || json!({"mode": "model", "schedule": choices})) }
+                    else { ctx.pass("model-path-replay-ok", true, true) }
+                }
+            }
         }
         _ => {
             let prefix: Vec<usize> = case["schedule"].as_array().map(|a| a.iter().map(|c| c.as_u64().unwrap_or(0) as usize).collect()).unwrap_or_default();
